@@ -709,7 +709,11 @@ fn c19_run_phase(ctx: &Ctx, out: &mut Out, rng: &mut Rng, k: u64, force: Option<
     let mut cfg = SrvCfg::new(0, &seed);
     cfg.num_workers = Some(nworkers);
     cfg.batch_size = Some(if rng.chance(1, 2) { *rng.pick(&[1u32, 64]) } else { rng.range(1, 64) as u32 });
-    if phase == Phase::Flood && rng.chance(3, 4) {
+    if phase == Phase::Flood && k % 2 == 0 {
+        // the floods that carry unanswerable port-0 requests (even k, see below) run with the
+        // largest batches: one call then holds the most requests whose reply cannot be sent
+        cfg.batch_size = Some(64);
+    } else if phase == Phase::Flood && rng.chance(3, 4) {
         // small batches that are not powers of two: one signature per handful of requests makes the
         // worker slow enough for any sender to keep its queue non-empty, whatever the machine
         cfg.batch_size = Some(*rng.pick(&[3u32, 5, 6, 7]));
@@ -914,15 +918,16 @@ fn c19_run_phase(ctx: &Ctx, out: &mut Out, rng: &mut Rng, k: u64, force: Option<
                             }
                         })
                         .collect();
-                    let mut buf = vec![0u8; 4096];
+                    // replies are not needed and never read: with a minimal receive buffer the
+                    // kernel discards them, and the sender does nothing but send (any pause long
+                    // enough for the worker to empty its queue would end the "flood")
+                    crate::inproc::set_rcvbuf(std::os::unix::io::AsRawFd::as_raw_fd(&sock), 2048);
                     let mut n = 0u64;
                     while !stop.load(Ordering::Relaxed) {
                         for p in &pkts {
                             let _ = sock.send_to(p, addr);
                             n += 1;
                         }
-                        // keep our own receive queue from filling (replies are not needed)
-                        while sock.recv_from(&mut buf).is_ok() {}
                     }
                     sent.fetch_add(n, Ordering::Relaxed);
                 }));
